@@ -1135,24 +1135,77 @@ func checkRequiredFieldsIndependent(c *Ctx, rule string) {
 	c.Check(rule, "AddRequiredFields.add/column-independent-of-selector", add.Pos(), ok, "the column is added whenever it is missing: "+why)
 	// the stamps are always requested
 	want := map[string]bool{"ig_name": false, "src_name": false, "block_num": false, "tx_idx": false}
-	for _, ci := range callsIn(arf) {
-		for _, cal := range res.Callees(ci) {
-			if cal == add {
-				if s, ok := constString(ci.Common().Args[0]); ok {
-					if _, w := want[s]; w {
-						// unconditional: dominated only by function entry
-						r, _ := reach(entrySite(arf), isReturn, newCuts().addInstr(ci))
-						if !r {
-							want[s] = true
-						}
-					}
-				}
+	for name, sites := range requiredFieldSites(res, arf) {
+		if _, w := want[name]; !w {
+			continue
+		}
+		for _, rs := range sites {
+			// unconditional: every path through the function passes it
+			if r, _ := reach(entrySite(rs.fn), isReturn, newCuts().addInstr(rs.at)); !r {
+				want[name] = true
 			}
 		}
 	}
 	for _, k := range sortedKeys(want) {
 		c.Check(rule, "AddRequiredFields/always-adds-"+k, arf.Pos(), want[k], "every integration gets the "+k+" selector and column unconditionally")
 	}
+}
+
+// reqSite: a place where AddRequiredFields decides to add the named field:
+// the add("name", …) call itself, or – when the names are data in a list a
+// helper builds – the statement that puts the name into that list.
+type reqSite struct {
+	fn *ssa.Function
+	at ssa.Instruction
+}
+
+func requiredFieldSites(res *Resolver, arf *ssa.Function) map[string][]reqSite {
+	out := map[string][]reqSite{}
+	dataForm := false
+	withClosures(arf, func(f *ssa.Function) {
+		for _, ci := range callsIn(f) {
+			isLocal := false
+			for _, cal := range res.Callees(ci) {
+				if cal.Parent() == arf {
+					isLocal = true
+				}
+			}
+			if !isLocal || len(ci.Common().Args) != 2 {
+				continue
+			}
+			if s, ok := constString(ci.Common().Args[0]); ok {
+				out[s] = append(out[s], reqSite{f, ci})
+			} else {
+				dataForm = true
+			}
+		}
+	})
+	if !dataForm {
+		return out
+	}
+	// names as data: constants stored into the first (string) field of struct elements in helpers arf calls
+	for _, ci := range callsIn(arf) {
+		h := regionCallee(ci)
+		if h == nil || h.Parent() == arf || !isRepoFunc(h) || h.Blocks == nil {
+			continue
+		}
+		allInstrs(h, func(in ssa.Instruction) {
+			st, ok := in.(*ssa.Store)
+			if !ok {
+				return
+			}
+			name, isC := constString(st.Val)
+			if !isC {
+				return
+			}
+			fa, isFA := st.Addr.(*ssa.FieldAddr)
+			if !isFA || fa.Field != 0 {
+				return
+			}
+			out[name] = append(out[name], reqSite{h, st})
+		})
+	}
+	return out
 }
 
 // checkCachePerRoutine: each segment cache of the client is filled by exactly
